@@ -163,3 +163,59 @@ pub fn dep_k_cbor_serialize_contract() {
         Err(_) => assert!(enc_len > n, "cbor_serialize failed although the encoding fits"),
     }
 }
+
+/// cbor-smol's length-head reader (`raw_deserialize_u32`, assumed by the Verus unit c06_cbor_skipper as `len_head`):
+/// value and header length of a head of the expected major type, minimal encodings only.
+fn spec_len_head(s: &[u8], major: u8) -> Option<(u32, usize)> {
+    if s.is_empty() || (s[0] >> 5) != major {
+        return None;
+    }
+    let a = s[0] & 0x1f;
+    if a <= 23 {
+        Some((a as u32, 1))
+    } else if a == 24 {
+        if s.len() < 2 || s[1] <= 23 { None } else { Some((s[1] as u32, 2)) }
+    } else if a == 25 {
+        if s.len() < 3 { return None; }
+        let v = (s[1] as u32) * 256 + s[2] as u32;
+        if v <= 255 { None } else { Some((v, 3)) }
+    } else if a == 26 {
+        if s.len() < 5 { return None; }
+        let v = (s[1] as u32) * 16777216 + (s[2] as u32) * 65536 + (s[3] as u32) * 256 + s[4] as u32;
+        if v <= 65535 { None } else { Some((v, 5)) }
+    } else {
+        None
+    }
+}
+
+/// validated through the public decoder: every 5-byte input decoded as `u32` (major type 0) gives exactly
+/// `len_head`'s value, or an error exactly when `len_head` is None; byte strings (major type 2) of up to 40
+/// bytes are delivered from offset `h` with length `v`.
+#[kani::proof]
+#[kani::unwind(8)]
+pub fn dep_k_length_heads() {
+    let buf: [u8; 5] = kani::any();
+    let r: Result<u32, _> = cbor_smol::cbor_deserialize(&buf);
+    match spec_len_head(&buf, 0) {
+        Some((v, _h)) => assert!(r == Ok(v), "len_head: value of an unsigned head"),
+        None => assert!(r.is_err(), "len_head: a non-minimal / too long / wrong-major head was accepted"),
+    }
+    let big: [u8; 44] = kani::any();
+    let rb: Result<&serde_bytes::Bytes, _> = cbor_smol::cbor_deserialize(&big);
+    match spec_len_head(&big, 2) {
+        Some((v, h)) => {
+            if h + v as usize <= 44 {
+                match rb {
+                    Ok(b) => {
+                        assert!(b.len() == v as usize, "len_head: byte string length");
+                        assert!(b.as_ptr() == big[h..].as_ptr(), "len_head: header length");
+                    }
+                    Err(_) => panic!("len_head: a well-formed byte string was rejected"),
+                }
+            } else {
+                assert!(rb.is_err());
+            }
+        }
+        None => assert!(rb.is_err(), "len_head: malformed length head accepted"),
+    }
+}
